@@ -39,6 +39,9 @@ func newBufferPool() *bufferPool {
 }
 
 func (b *bufferPool) Get() *bytes.Buffer {
+	if buf := verifBufGet(b); buf != nil {
+		return buf
+	}
 	if buf, ok := b.Pool.Get().(*bytes.Buffer); ok {
 		return buf
 	}
@@ -46,9 +49,13 @@ func (b *bufferPool) Get() *bytes.Buffer {
 }
 
 func (b *bufferPool) Put(buffer *bytes.Buffer) {
+	verifBufRelease(b, buffer)
 	if buffer.Cap() > maxRecycleBufferSize {
 		return
 	}
 	buffer.Reset()
+	if verifBufPut(b, buffer) {
+		return
+	}
 	b.Pool.Put(buffer)
 }
